@@ -79,6 +79,45 @@ def _job(j):
     return convert_record(*j)
 
 
+def cli_record(job):
+    """the command line front end: file argument or stdin, flags, stdout or --output_file"""
+    import subprocess
+    import sys
+    import tempfile
+
+    svg, at, dr, mode = job
+    rec = {"prop": "C01", "nd": 3, "at": at, "dr": dr}
+    env = dict(os.environ, PYTHONPATH=os.path.join(common.REPO, "src"))
+    with tempfile.TemporaryDirectory() as td:
+        src = os.path.join(td, "in.svg")
+        open(src, "w").write(svg)
+        cmd = [sys.executable, "-m", "picosvg.picosvg"]
+        if mode != "stdin":
+            cmd.append(src)
+        if at:
+            cmd.append("--allow_text")
+        if dr:
+            cmd.append("--drop_unsupported")
+        outp = os.path.join(td, "out.svg")
+        if mode == "outfile":
+            cmd += ["--output_file", outp]
+        p = subprocess.run(cmd, env=env, input=svg if mode == "stdin" else None, stdout=subprocess.PIPE,
+                           stderr=subprocess.PIPE, text=True, timeout=600)
+        if p.returncode != 0:
+            msg = p.stderr.strip().splitlines()[-1] if p.stderr.strip() else ""
+            bad = 1 if ("BadElement" in msg and "reuses id" not in msg) else 0
+            rec["r"] = {"k": "exc", "t": "cli-exit-%d" % p.returncode, "bad": bad, "msg": msg[:120]}
+            return rec, None
+        text = open(outp).read() if mode == "outfile" else p.stdout
+    try:
+        proj, nrefs = D.structure(text)
+    except Exception as e:  # noqa
+        rec["r"] = {"k": "exc", "t": "projection:" + type(e).__name__, "bad": 0}
+        return rec, text
+    rec["r"] = {"k": "ok", "out": proj, "nrefs": nrefs, "h": [hsh(text)], "self": 0}
+    return rec, text
+
+
 def run_structural(out, prop, tier, okverdicts, rule, classify, foci=FOCI, nq=250, nt=4000):
     wd = common.workdir(prop.lower())
     try:
@@ -97,6 +136,21 @@ def run_structural(out, prop, tier, okverdicts, rule, classify, foci=FOCI, nq=25
         for m, (rec, o1) in zip(meta, common.pmap(_job, jobs)):
             recs.append(rec)
             m[3] = o1
+        if prop == "C01":
+            # the CLI (its output is pretty-printed; same grammar)
+            ncli = 48 if tier == "quick" else 600
+            step = max(1, len(srcs) // ncli)
+            cjobs, cmeta = [], []
+            for k, (name, svg, adoc) in enumerate(srcs[::step][:ncli]):
+                at, dr = (k // 3) % 2, (k // 6) % 2
+                mode = ("file", "stdin", "outfile")[k % 3]
+                cjobs.append((svg, at, dr, mode))
+                cmeta.append(["cli-" + mode + ":" + name, svg, (3, at, dr), None, adoc])
+            for m, (rec, o1) in zip(cmeta, common.tmap(cli_record, cjobs)):
+                recs.append(rec)
+                m[3] = o1
+                meta.append(m)
+            out.coverage["parts"]["cli_runs"] = len(cjobs)
         verdicts, st, tr = common.validate_traces("TraceDoc", "TraceDoc.cfg", recs, wd, chunk=20000)
         cov = out.coverage
         cov["states"] += st
